@@ -1,16 +1,23 @@
 package main
 
 import (
+	"fmt"
 	"sort"
+	"strconv"
 	"time"
 
 	"git.metabarcoding.org/obitools/obitools4/obitools4/pkg/obiiter"
 	"git.metabarcoding.org/obitools/obitools4/obitools4/pkg/obiseq"
 )
 
-// c03Stress: many tiny batches through the parallel worker pool, several rounds: every batch number
-// 0..n-1 must come out exactly once (a lost / duplicated batch needs an interleaving a few
+// c03Stress: many tiny batches through a combinator, several rounds: every batch / record must come
+// out exactly once with the right number (a lost / duplicated batch needs an interleaving a few
 // nanoseconds wide, so it only shows on long streams).
+//
+// case: size = batches per round, mod = rounds, nw = workers, data[0] selects the combinator:
+// 0 MakeIWorker (numbers kept: a permutation of 0..n-1), 1 FilterOn (identity predicate, size 1),
+// 2 DivideOn (id odd / even, size 1), 3 Distribute (id mod 4, size 1), 4 Rebatch(1) on an input arriving in
+// reversed blocks of 64, 5 SortBatches on the same input, 6 FilterAnd, 7 worker pool | Rebatch(3).
 type c03StressObs struct {
 	Kind      string `json:"kind"`
 	Rounds    int    `json:"rounds"`
@@ -18,58 +25,186 @@ type c03StressObs struct {
 	Missing   []int  `json:"missing,omitempty"`
 	Dup       []int  `json:"dup,omitempty"`
 	Hang      bool   `json:"hang,omitempty"`
+	Detail    string `json:"detail,omitempty"`
+}
+
+var c03StressSeqs []*obiseq.BioSequence
+
+// the k-th batch pushed has number c03StressOrder(k, n, scrambled): identity, or reversed blocks of 64
+func c03StressOrder(k, n int, scrambled bool) int {
+	if !scrambled {
+		return k
+	}
+	b := (k / 64) * 64
+	e := b + 64
+	if e > n {
+		e = n
+	}
+	return b + (e - 1 - k)
+}
+
+// batch number o carries the single record of id (o mod 8)
+func c03StressSource(n int, scrambled bool) obiiter.IBioSequence {
+	it := obiiter.MakeIBioSequence()
+	it.Add(1)
+	go func() {
+		for k := 0; k < n; k++ {
+			o := c03StressOrder(k, n, scrambled)
+			it.Push(obiiter.MakeBioSequenceBatch("src", o, obiseq.BioSequenceSlice{c03StressSeqs[o%8]}))
+		}
+		it.Done()
+	}()
+	go it.WaitAndClose()
+	return it
+}
+
+// c03StressDrain: checks one output stream; want(j) = id of the record expected in the j-th delivered
+// batch (batches of one record numbered 0,1,2.. in delivery order), or permutation mode (numbers only).
+type c03StressSink struct {
+	n    int
+	bad  string
+	done chan struct{}
+}
+
+func c03StressInOrder(it obiiter.IBioSequence, expect int, want func(j int) int) *c03StressSink {
+	s := &c03StressSink{done: make(chan struct{})}
+	go func() {
+		j := 0
+		for it.Next() {
+			b := it.Get()
+			if s.bad == "" {
+				if b.Order() != j {
+					s.bad = fmt.Sprintf("batch delivered at position %d has number %d", j, b.Order())
+				} else if b.Len() != 1 {
+					s.bad = fmt.Sprintf("batch %d has %d records", j, b.Len())
+				} else if id := c03Id(b.Slice()[0]); id != want(j) {
+					s.bad = fmt.Sprintf("batch %d holds record %d, expected %d", j, id, want(j))
+				}
+			}
+			j++
+		}
+		if s.bad == "" && j != expect {
+			s.bad = fmt.Sprintf("%d batches delivered, expected %d", j, expect)
+		}
+		s.n = j
+		close(s.done)
+	}()
+	return s
 }
 
 func c03StressRun(c c03Case) c03StressObs {
 	obs := c03StressObs{Kind: "stress"}
 	n := c.Size
-	shared := obiseq.BioSequenceSlice{c03Seq(0)}
+	what := 0
+	if len(c.Data) > 0 {
+		what = c.Data[0]
+	}
+	if c03StressSeqs == nil {
+		for i := 0; i < 8; i++ {
+			c03StressSeqs = append(c03StressSeqs, c03Seq(i))
+		}
+	}
+	id := func(s *obiseq.BioSequence) (obiseq.BioSequenceSlice, error) { return obiseq.BioSequenceSlice{s}, nil }
+	yes := func(s *obiseq.BioSequence) bool { return true }
 	for r := 0; r < c.Mod; r++ {
 		obs.Rounds++
-		it := obiiter.MakeIBioSequence()
-		it.Add(1)
-		go func() {
-			for i := 0; i < n; i++ {
-				it.Push(obiiter.MakeBioSequenceBatch("src", i, shared))
-			}
-			it.Done()
-		}()
-		go it.WaitAndClose()
-		id := func(s *obiseq.BioSequence) (obiseq.BioSequenceSlice, error) { return obiseq.BioSequenceSlice{s}, nil }
-		out := it.MakeIWorker(id, false, c.NW)
-		seen := make([]int, n)
-		done := make(chan struct{})
-		go func() {
-			for out.Next() {
-				o := out.Get().Order()
-				if o >= 0 && o < n {
-					seen[o]++
+		sinks := []*c03StressSink{}
+		var seen []int
+		permDone := make(chan struct{})
+		switch what {
+		case 0:
+			out := c03StressSource(n, false).MakeIWorker(id, false, c.NW)
+			seen = make([]int, n)
+			go func() {
+				for out.Next() {
+					o := out.Get().Order()
+					if o >= 0 && o < n {
+						seen[o]++
+					}
 				}
+				close(permDone)
+			}()
+		case 1:
+			sinks = append(sinks, c03StressInOrder(c03StressSource(n, false).FilterOn(yes, 1, c.NW), n, func(j int) int { return j % 8 }))
+		case 6:
+			sinks = append(sinks, c03StressInOrder(c03StressSource(n, false).FilterAnd(yes, 1, c.NW), n, func(j int) int { return j % 8 }))
+		case 2:
+			t, f := c03StressSource(n, true).DivideOn(func(s *obiseq.BioSequence) bool { return c03Id(s)%2 == 1 }, 1)
+			sinks = append(sinks, c03StressInOrder(t, n/2, func(j int) int { return (2*j + 1) % 8 }),
+				c03StressInOrder(f, n-n/2, func(j int) int { return (2 * j) % 8 }))
+		case 3:
+			cl := &obiseq.BioSequenceClassifier{
+				Code:  func(s *obiseq.BioSequence) int { return c03Id(s) % 4 },
+				Value: func(k int) string { return strconv.Itoa(k) },
+				Reset: func() {},
+				Type:  "verif",
 			}
-			close(done)
-		}()
-		select {
-		case <-done:
-		case <-time.After(60 * time.Second):
-			obs.Hang = true
-			obs.BadRounds++
-			return obs
+			d := c03StressSource(n, true).Distribute(cl, 1)
+			keys := 0
+			for k := range d.News() {
+				k := k
+				it, err := d.Outputs(k)
+				if err != nil {
+					obs.Detail = err.Error()
+					continue
+				}
+				keys++
+				cnt := 0
+				for i := k; i < n; i += 4 {
+					cnt++
+				}
+				sinks = append(sinks, c03StressInOrder(it, cnt, func(j int) int { return (4*j + k) % 8 }))
+			}
+			if keys != 4 && n >= 8 {
+				obs.Detail = fmt.Sprintf("%d keys announced", keys)
+			}
+		case 4:
+			sinks = append(sinks, c03StressInOrder(c03StressSource(n, true).Rebatch(1), n, func(j int) int { return j % 8 }))
+		case 5:
+			sinks = append(sinks, c03StressInOrder(c03StressSource(n, true).SortBatches(), n, func(j int) int { return j % 8 }))
+		case 7:
+			sinks = append(sinks, c03StressInOrder(c03StressSource(n, false).MakeIWorker(id, false, c.NW).Rebatch(1), n, func(j int) int { return j % 8 }))
 		}
+		deadline := time.After(120 * time.Second)
 		bad := false
-		for i, k := range seen {
-			if k == 0 {
-				bad = true
-				if len(obs.Missing) < 5 {
-					obs.Missing = append(obs.Missing, i)
-				}
-			} else if k > 1 {
-				bad = true
-				if len(obs.Dup) < 5 {
-					obs.Dup = append(obs.Dup, i)
+		if seen != nil {
+			select {
+			case <-permDone:
+			case <-deadline:
+				obs.Hang = true
+				obs.BadRounds++
+				return obs
+			}
+			for i, k := range seen {
+				if k == 0 {
+					bad = true
+					if len(obs.Missing) < 5 {
+						obs.Missing = append(obs.Missing, i)
+					}
+				} else if k > 1 {
+					bad = true
+					if len(obs.Dup) < 5 {
+						obs.Dup = append(obs.Dup, i)
+					}
 				}
 			}
 		}
-		if bad {
+		for _, s := range sinks {
+			select {
+			case <-s.done:
+				if s.bad != "" {
+					bad = true
+					if obs.Detail == "" {
+						obs.Detail = s.bad
+					}
+				}
+			case <-deadline:
+				obs.Hang = true
+				obs.BadRounds++
+				return obs
+			}
+		}
+		if bad || (obs.Detail != "" && what == 3) {
 			obs.BadRounds++
 		}
 	}
